@@ -13,6 +13,7 @@ import (
 
 	"github.com/weedbox/pokerface"
 	pt "github.com/weedbox/pokertable"
+	"github.com/weedbox/pokertable/actor"
 	ogm "github.com/weedbox/pokertable/open_game_manager"
 	sm "github.com/weedbox/pokertable/seat_manager"
 )
@@ -82,6 +83,7 @@ type Scenario struct {
 	Tags       []string   `json:"tags,omitempty"`
 	MinChip    int64      `json:"minchip,omitempty"`
 	Via        string     `json:"via,omitempty"` // "manager": every call goes through a pokertable.Manager next to bystander tables
+	Actors     bool       `json:"actors,omitempty"` // attach observer actors to every table update (C20)
 	Interval   int        `json:"interval,omitempty"`
 }
 
@@ -116,6 +118,7 @@ type TD struct {
 	dead      bool
 	injDone   map[string]bool
 	mgr       pt.Manager
+	obsAdapters []interface{ UpdateTableState(*pt.Table) error }
 	bystanders []string
 }
 
@@ -224,6 +227,9 @@ func NewTD(rec *Recorder, sc *Scenario) *TD {
 			return
 		}
 		d.rec.Emit("cb:updated", mkArgs(), "", te, t, nil, false)
+		if sc.Actors {
+			d.deliverToActors(t)
+		}
 	})
 	te.OnTableStateUpdated(func(ev string, t *pt.Table) {
 		if ev == pt.TableStateEvent_GameUpdated || d.isDead() {
@@ -273,6 +279,45 @@ func NewTD(rec *Recorder, sc *Scenario) *TD {
 		pt.VerifSetHook(te, d.hook)
 	}
 	return d
+}
+
+// deliverToActors hands the snapshot to a non-system observer and a system observer, each behind its own
+// TableEngineAdapter (C20): what each saw is recorded, and the engine's own table is projected before and after.
+func (d *TD) deliverToActors(t *pt.Table) {
+	if d.obsAdapters == nil {
+		mk := func(system bool, name string) *actor.Actor {
+			a := actor.NewActor()
+			ad := actor.NewTableEngineAdapter(realEngine(d.te), t)
+			a.SetAdapter(ad)
+			ob := actor.NewObserverRunner()
+			ob.EnabledSystemMode(system)
+			ob.OnTableStateUpdated(func(v *pt.Table) {
+				args := mkArgs()
+				args.Kind = name
+				d.rec.Emit("actorview", args, "", nil, v, nil, false)
+			})
+			a.SetRunner(ob)
+			d.obsAdapters = append(d.obsAdapters, ad)
+			return &a
+		}
+		// order of attachment varies with the scenario
+		if d.sc.Seed%2 == 0 {
+			mk(false, "observer")
+			mk(true, "system")
+		} else {
+			mk(true, "system")
+			mk(false, "observer")
+		}
+		mk(false, "observer2")
+	}
+	before := tableDigest(t)
+	for _, ad := range d.obsAdapters {
+		ad.UpdateTableState(t)
+	}
+	after := tableDigest(t)
+	a := mkArgs()
+	a.Kind = "delivered"
+	d.rec.Emit("actorsdone", a, "", realEngine(d.te), t, nil, before == after)
 }
 
 func (d *TD) bystanderDigest() string {
